@@ -28,6 +28,9 @@ pub enum Answer {
     Mute,
 }
 
+/// Requests to this port are answered with a failure verdict (the session itself stays healthy).
+pub const REFUSED_PORT: u16 = 9;
+
 pub struct CWorld {
     pub client: Arc<Client>,
     pub conns: Arc<Mutex<Vec<Arc<Mutex<ConnLog>>>>>,
@@ -134,7 +137,10 @@ async fn serve(io: tokio::io::DuplexStream, log: Arc<Mutex<ConnLog>>, answer: An
                 PSH if !answered.contains(&f.id) => {
                     answered.push(f.id);
                     if answer == Answer::Ok {
-                        let _ = s.write_all(&enc(SYNACK, f.id, b"")).await;
+                        // destinations with port 9 are "refused by the target": the verdict carries a reason
+                        let refused = f.data.len() >= 2 && f.data[f.data.len() - 2..] == REFUSED_PORT.to_be_bytes();
+                        let reason: &[u8] = if refused { b"connect to target failed: connection refused" } else { b"" };
+                        let _ = s.write_all(&enc(SYNACK, f.id, reason)).await;
                     }
                 }
                 HEART_REQ => {
